@@ -214,6 +214,16 @@ class FormatPart(Part):
             lines.append(ln)
             meta.append((sec, pre + head, tail + post, idx))
         judge(res, f, lines, meta, case["salt"])
+        # the secret quoted, followed by further text that contains another quoted string
+        if "[^;]" not in f["regex"] and '"' not in f["template"] and not f["template"].split("{S}")[1].strip():
+            ql, qm = [], []
+            for (sec, head, tail, idx), ln in list(zip(meta, lines))[::5]:
+                if head or tail:
+                    continue
+                for trail in (' start-time "2023-1-1.00:00:00 +0000";', ' description "to core" ;'):
+                    ql.append(secdom.fill(f["template"], ['"' + sec + '"']) + trail)
+                    qm.append((sec, '"', '"', idx))
+            judge(res, f, ql, qm, case["salt"])
         # the same lines indented and wrapped (indentation + line-initial enclosing text)
         for lead, trail in (('      "', '",'), ("\t{ ", " }"), ("  ['", "']")):
             if '"' in f["template"] and '"' in lead:
